@@ -157,6 +157,9 @@ def save_contract(chk, mod):
             try:
                 mod.save_xye('FILE', DA(has_var, ndim, masks, names, edges, dim), coord=coord_arg, header='HDR')
                 got = ('write', None)
+            except (AttributeError, TypeError, core.Unsupported) as e:
+                # the stand-in data array / numpy met an operation it does not have: the code has another shape than this contract addresses
+                raise core.Unsupported(f'save_xye uses its argument or numpy in a way the stand-ins do not cover: {type(e).__name__}: {e}')
             except Exception as e:
                 got = ('raise', type(e).__name__)
             if got[0] == 'raise':
@@ -167,6 +170,10 @@ def save_contract(chk, mod):
                     # the function hands numpy something else than the caller's target (e.g. a file it opened itself): what that does
                     # to the round trip (compression by suffix, encoding, newlines) is numpy/io behaviour -- the real round trips decide
                     raise core.Unsupported(f'save_xye does not pass its target to numpy.savetxt unchanged (got {type(call[1]).__name__})')
+                if call is not None and set(call[3]) - {'delimiter', 'header'}:
+                    # other keyword arguments to numpy.savetxt (fmt, newline, comments, ...) or a pre-formatted table: what ends up in the
+                    # file is numpy behaviour -- the real round trips decide
+                    raise core.Unsupported(f'save_xye calls numpy.savetxt with {sorted(call[3])}')
                 ok = (want[0] == 'write' and call is not None and call[1] == 'FILE'
                       and call[2] == ('columns', (('values-of-coord', want[1]), ('VALUES',), ('sqrt', ('VARIANCES',))))
                       and call[3] == {'delimiter': ' ', 'header': 'HDR'})
@@ -268,7 +275,10 @@ def roundtrip_failures(n, seed, limit=3):
     fails = []
     headers = ['', 'plain', '# hash', 'two\nlines', '1 2 3', '1.0 2.0 3.0\n4 5 6', 'cr\rline', '###', 'a' * 500, 'tab\there', '\n', '#\n1 2 3\n']
     for i in range(n):
+        # 1..1e4 rows; block sizes a writer might use internally (powers of two and their neighbours) are in the list on purpose
         rows = int([1, 2, 3, 10, 100][i % 5] if i % 7 else rng.integers(1, 3000))
+        if i % 11 == 10:
+            rows = int([4095, 4096, 4097, 5000, 8191, 8192, 8193, 10000, 1023, 1025, 2049][(i // 11) % 11])
         kind = i % 4
         if kind == 0:
             vals = rng.normal(size=rows) * 10.0 ** rng.integers(-300, 300, rows)
@@ -355,8 +365,8 @@ def roundtrip_failures(n, seed, limit=3):
 def bounded_roundtrips(chk):
     n = 120 if chk.tier == 'quick' else 3000
     fails = roundtrip_failures(n, 95 + chk.seed)
-    chk.bounded_check('real-round-trips', 'real save_xye / load_xye: coordinate and values bit for bit, variances within 4 unit roundoffs, hostile headers, 1..3000 rows, '
-                      'subnormal / extreme / random-bit-pattern values, path and file-object targets, refusals', f'{n} round trips + 6 refusals', n + 6, fails)
+    chk.bounded_check('real-round-trips', 'real save_xye / load_xye: coordinate and values bit for bit, variances within 4 unit roundoffs, hostile headers, 1..1e4 rows, '
+                      'subnormal / extreme / random-bit-pattern values, path and file-object targets, refusals', f'{n} round trips (1..1e4 rows) + 6 refusals', n + 6, fails)
 
 
 def replay(rec):
